@@ -198,8 +198,8 @@ PROPS = {
         module="OrbitModel.Properties.C13",
         theorems=["Orbit.C13.read_order_tied_to_go_text", "Orbit.C13.framing_round_trips", "Orbit.C13.save_errors_exactly_when_a_record_is_too_long",
                   "Orbit.C13.save_errors_or_loads_back", "Orbit.C13.size_guards_tied_to_go_text", "Orbit.C13.snapshot_written_while_the_log_grows_loads_back",
-                  "Orbit.C13.save_is_racing_save_at_rest", "Orbit.C13.reordered_reads_would_write_unloadable_snapshots", "Orbit.C13.pinned_tree_wrote_unloadable_snapshot", "Orbit.C13.save_errors_or_loads_back_through_the_fetcher", "Orbit.C13.snapshot_written_while_the_log_grows_loads_back_through_the_fetcher"],
-        families=[("snapshot", 60, 1500, 10)],
+                  "Orbit.C13.save_is_racing_save_at_rest", "Orbit.C13.reordered_reads_would_write_unloadable_snapshots", "Orbit.C13.pinned_tree_wrote_unloadable_snapshot", "Orbit.C13.save_errors_or_loads_back_through_the_fetcher", "Orbit.C13.snapshot_written_while_the_log_grows_loads_back_through_the_fetcher", "Orbit.C13.snapshot_route_joins_only_entries_join_accepts", "Orbit.C13.foreign_entry_came_back_through_the_snapshot_before_the_fix", "Orbit.C13.snapshot_loader_filters_tied_to_go_text"],
+        families=[("snapshot", 60, 1500, 10), ("forge", 30, 600, 10)],
         corr_fields={"values", "heads", "idx", "len", "ack", "sync"},
         nontrivial=lambda lines: any(l.startswith("snapsaved ") or l.startswith("snapsave ") for l in lines),
         rule="kv/doc/log histories by 1-3 writers (forks, deletions, payloads of 100 B to just under and just over the 64 KiB record limit), SaveSnapshot on a replica at a PRNG point, then a brand-new instance (empty cache) LoadFromSnapshot: a save either errors or the new instance lists the same values, heads and index; no panic; non-trivial = a snapshot was attempted",
@@ -285,7 +285,7 @@ _TIE = ("Lean 4 theorems about a hand-written model + correspondence harness: th
         "property's L1 predicate on the implementation's own observations")
 MANIFEST_TEXT = {
     "C13": dict(
-        text="Kernel-checked theorems: the 16-bit record framing round-trips for every list of records that save accepts; save returns an error exactly when the header or an entry exceeds 65535 bytes; for every reachable log whose entries the access controller accepts, save either errors or produces bytes from which a fresh store rebuilds a log with the same entries, Values() and heads. A snapshot written WHILE the log grows (SaveSnapshot takes no lock and reads heads, length, entries in that order) is proved to load back as the state at the first read; with the reads reordered it would be written without error and refused by the loader (proved). The pinned tree's silent length wrap-around (record of 65536 bytes written with length 0) is a proved witness replayed on the real store before the fix: commits (F9a-c). The Go port's loader does not build the log from the records: ipfslog.NewFromJSON ignores the entries it is given and fetches the ancestry of the recorded heads out of IPFS (read in the dependency; noted by a sub-agent); the model has both readings and the theorems are proved for both (loadFetching: on a node holding the blocks the fetch returns the log, and then the fresh store rebuilds the same entries, Values() and heads; a snapshot written while the log grew loads as the state at the first read with no proviso). The snapshot family saves on real stores (payloads around the 64 KiB limit) and loads into brand-new instances over the same block store.",
+        text="Kernel-checked theorems: the 16-bit record framing round-trips for every list of records that save accepts; save returns an error exactly when the header or an entry exceeds 65535 bytes; for every reachable log whose entries the access controller accepts, save either errors or produces bytes from which a fresh store rebuilds a log with the same entries, Values() and heads. A snapshot written WHILE the log grows (SaveSnapshot takes no lock and reads heads, length, entries in that order) is proved to load back as the state at the first read; with the reads reordered it would be written without error and refused by the loader (proved). The pinned tree's silent length wrap-around (record of 65536 bytes written with length 0) is a proved witness replayed on the real store before the fix: commits (F9a-c). The Go port's loader does not build the log from the records: ipfslog.NewFromJSON ignores the entries it is given and fetches the ancestry of the recorded heads out of IPFS (read in the dependency; noted by a sub-agent); the model has both readings and the theorems are proved for both (loadFetching: on a node holding the blocks the fetch returns the log, and then the fresh store rebuilds the same entries, Values() and heads; a snapshot written while the log grew loads as the state at the first read with no proviso). The snapshot family saves on real stores (payloads around the 64 KiB limit) and loads into brand-new instances over the same block store. The snapshot route hands Join only entries of this log that Join accepts (proved; finding F47, fix: commit - the loader fetched the log again through every link and joined all of it: a snapshot saved without error that could not be loaded, or a foreign entry back as a head: decide-checked witness; the forge family now saves and loads snapshots and runs under this property's reconstruct predicate; the loader's three tests are regenerated from the Go text).",
         note="Trusted: Lean kernel + standard axioms; the JSON codec of one entry is a parameter with a left inverse (sampled by the harness); the unixfs file layer is a fake that stores files whole; the fetcher's contract (it returns the ancestry of the heads it is given, from blocks the node holds) is a hypothesis of the fetching-loader theorems - a snapshot is NOT self-contained in this port: a node without the blocks needs the network to load it.",
         technique="Lean 4 proof (codec round-trip by induction; rebuilt log joins to the same entries/order/heads) with differential correspondence on real save/load"),
     "C14": dict(
